@@ -185,8 +185,12 @@ func (c *liteCtl) ResetFSM()                     {}
 func (c *liteCtl) SendCertificateResultsTx(*lib.QuorumCertificate) {}
 
 // LoadCommittee: the committee is the same at every root height (committee-preserving updates).
-func (c *liteCtl) LoadCommittee(_, _ uint64) (lib.ValidatorSet, lib.ErrorI) {
-	return lib.NewValidatorSet(c.s.Vals)
+func (c *liteCtl) LoadCommittee(_, rootHeight uint64) (lib.ValidatorSet, lib.ErrorI) {
+	if !c.s.Cfg.ReorderCommittee {
+		return lib.NewValidatorSet(c.s.Vals)
+	}
+	vs := c.s.ValSetAt(rootHeight)
+	return lib.NewValidatorSet(vs.ValidatorSet) // a fresh object, as the real controller returns
 }
 
 // LoadCommitteeData: as HandleCertificateResults leaves it after the last committed certificate.
